@@ -258,6 +258,10 @@ func (c *Conn) clientHandshake(ctx context.Context) (err error) {
 			if serverHello != nil {
 				break
 			}
+			// 已决定重发 ClientHello（收到 HelloVerifyRequest）：离开读循环立即重发，而不是等到读超时
+			if c.hsState.Load() == int32(stateSending) {
+				break
+			}
 		}
 
 		if serverHello != nil {
